@@ -37,6 +37,45 @@ CLAIMED["C17"] = {
     "design_ref": "5 (C17)",
 }
 
+CLAIMED["C02"] = {
+    "text": "Lean theorems, for all inputs: every text node and the style sheet text are safe character data (no '<', "
+            "every '&' starts one of six fixed references, only characters XML can represent); every attribute value "
+            "renders without quote, '<' or '&' (numbers are digits/sign/point, class tokens are identifiers, the rest "
+            "are fixed literals) for the whole document built by svgRoot from any fragments, any legend, any settings; "
+            "decoding the character data returns exactly the XML-representable input characters; the root is svg in "
+            "the SVG namespace with numeric size. The model's serializer is tied byte-for-byte to the implementation "
+            "by rendering the implementation's own fragments in the model; well-formedness of the implementation's "
+            "output is additionally judged by expat on hostile inputs in every channel.",
+    "note": "Trusted: Lean kernel; hand model of escaping/node building/sauron render validated byte-for-byte by "
+            "correspondence; balanced tags hold by construction of render from a tree (no XML reader in Lean yet), "
+            "checked with expat on the implementation; f32 number formatting outside the model for non-dyadic results.",
+    "technique": "Lean 4 proof (lexical safety + decode/escape round trip) over executable model + byte-level back-end correspondence + expat oracle",
+    "design_ref": "5 (C02)",
+}
+CLAIMED["C08"] = {
+    "text": "In the model the element/attribute vocabulary is closed by typing (finite enumerations, no constructor for "
+            "comments, PIs, CDATA, entities). Lean theorems for all inputs: text channel and legend channel produce "
+            "safe character data without '<'; {tag} names reaching a class attribute consist of identifier characters "
+            "only (never quote, '<', '&', white space); the whole document is lexically safe. Byte-level back-end "
+            "correspondence ties the model's serializer to the implementation; a payload oracle (17 payloads x 6 "
+            "channels with unique markers) checks the parsed implementation output for foreign elements/attributes.",
+    "note": "Trusted: Lean kernel; model/implementation correspondence; expat for reading the implementation's output.",
+    "technique": "Lean 4 proof (closed vocabulary by typing, lexical safety invariants through the containment forest) + byte-level correspondence + payload oracle",
+    "design_ref": "5 (C08)",
+}
+CLAIMED["C18"] = {
+    "text": "Lean theorems about svgRoot: children = style? ++ defs? ++ backdrop? ++ geometry with geometry a function "
+            "of fragments and scale only; root attributes; an overridden size changes only root and backdrop "
+            "dimensions; the style element depends on settings only through the base sheet; the compressed renderer "
+            "writes no indentation. Byte-level back-end correspondence over all switch combinations, random style "
+            "strings, override sizes and entry points; oracle on the implementation compares all 8 switch combinations, "
+            "changed colours/fonts, override sizes, to_svg vs pretty vs compressed.",
+    "note": "Trusted: Lean kernel; base style sheet captured from the implementation (jss! macro not modelled); "
+            "pretty/compressed equivalence judged on parsed documents (expat), not proved.",
+    "technique": "Lean 4 proof over executable model of the root/serializer + byte-level correspondence + differential oracle across settings",
+    "design_ref": "5 (C18)",
+}
+
 NOT_YET = {
 }
 
